@@ -431,7 +431,7 @@ Definition single (q : req) : bool := match q_mode q with MSingle _ => true | _ 
 Definition o_res (q : req) : ord := if single q then ord_counter_fetch_and_increment else ord_counter_fetch_and_add.
 Definition o_chkf (q : req) : ord := if single q then ord_completed_load_get else ord_completed_load_progress.
 Definition o_ldy (q : req) : ord := if single q then ord_yielded_read_get else ord_yielded_read_progress.
-Definition o_setf (q : req) : ord := if single q then ord_completed_store_get else ord_completed_store_fetch_n.
+Definition o_setf (q : req) : ord := if single q then ord_completed_store_get else ord_completed_store_complete.
 Definition o_pub (q : req) : ord := if single q then ord_yielded_publish_single else ord_yielded_publish_chunk.
 
 Definition step (e : env) (c : cfg) (t : tid) : cfg :=
@@ -478,12 +478,8 @@ Definition step (e : env) (c : cfg) (t : tid) : cfg :=
             if N.of_nat (length got') =? q_n q
             then commit c t sh' (set_pc ts (PPub q b got')) l []
             else commit c t sh' (set_pc ts (PSrc q b got')) l []
-        | MChunk _, None =>
-            match got with
-            | [] => commit c t sh' (set_pc ts (PSetF q b [])) l []
-            | _ => commit c t sh' (set_pc ts (PPub q b got)) l []
-            end
-        | MBuf _, None => commit c t sh' (set_pc ts (PPub q b got)) l []
+        | MChunk _, None => commit c t sh' (set_pc ts (PSetF q b got)) l []
+        | MBuf _, None => commit c t sh' (set_pc ts (PSetF q b got)) l []
         end
   | PSetF q b got =>
       let l := LAtom t SF AStore 1 0 (o_setf q) in
